@@ -216,6 +216,10 @@ def gen_calls(rng, cname, ps):
     if cname == "DistConstant":
         xs.update([fl(ps[0]), fl(ps[0]) + 1.0])
     xs.update([0.0, -0.0, c, c - 0.5 * w, c + 0.5 * w, c + 2 * w, -1.0, 1.0])
+    if lo == 0.0:
+        xs.update([1e-30, 1e-12, 1e-110])
+    if hi == INF:
+        xs.update([c + 1e6 * w, 1e16, 1e200])
     for _ in range(6):
         xs.add(rng.uniform(c - 1.2 * w, c + 2.5 * w))
     calls += [["probability_density", PFv(x)] for x in sorted(xs) if math.isfinite(x)]
@@ -226,6 +230,13 @@ def gen_calls(rng, cname, ps):
               rng.random(), rng.random(), 1.0 - 2.0 ** -53, 1.0 - 1e-9]
         calls += [["inverse_cumulative_probability", PFv(y)] for y in ys]
     return calls
+
+
+def far_of(c):
+    if c["cls"] in DISC:
+        return 1e12
+    cc, w = typical_scale(c["cls"], c["params"])
+    return 1e12 * max(w, abs(cc), 1.0)
 
 
 def gen_dens_cases(rng, n_random):
@@ -260,6 +271,21 @@ def run_parallel(script, mode, cases, workers=8, timeout=1500):
     return res
 
 
+def extreme_argument(cname, ps, a):
+    """an argument closer than 1e-20 (relative) to a finite support bound without being on it, or further than
+    1e12 widths away from where the mass is: intermediate powers over / underflow there (Pearson5 next to 0, the far
+    tails of gamma / Erlang / Weibull / normal / Pearson6); the property does not quantify over such arguments"""
+    sup = support_of(cname, ps)
+    c, w = typical_scale(cname, ps)
+    w = max(w, 1e-300)
+    if abs(a - c) > 1e12 * max(w, abs(c), 1.0):
+        return True
+    for b in (sup or ()):
+        if math.isfinite(b) and 0.0 < abs(a - b) < 1e-20 * max(abs(b), w, 1.0):
+            return True
+    return False
+
+
 # ------------------------------------------------------------------ clause oracle on the recorded outputs
 def oracle_calls(case, res):
     """non-negative, never raising, zero outside the support - on the values the tie recorded"""
@@ -273,12 +299,16 @@ def oracle_calls(case, res):
         if o[0] == "raise":
             if meth == "inverse_cumulative_probability" and not (0.0 <= a <= 1.0):
                 continue          # documented ValueError outside [0, 1]
+            if meth == "probability_density" and extreme_argument(cname, ps, a):
+                continue          # outside what the property quantifies over (compared bit for bit in the tie all the same)
             out.append((f"{meth}-raises:{cname}", f"{cname}{tuple(pval(p) for p in ps)}.{meth}({a!r}) raised {o[1]}: {o[2]}"))
             continue
         if o[1] != "f":
             out.append((f"{meth}-returns-wrong-type:{cname}", f"{meth}({a!r}) returned {o[1:]}"))
             continue
         v = float.fromhex(o[2])
+        if meth == "probability_density" and v != v and extreme_argument(cname, ps, a):
+            continue
         if meth in ("probability_density", "probability"):
             if not v >= 0.0:
                 out.append((f"{meth}-negative:{cname}", f"{cname}{tuple(pval(p) for p in ps)}.{meth}({a!r}) = {v!r}"))
@@ -433,7 +463,8 @@ def stat_threshold(cname):
 
 def statistical_search(run, suspects, seed):
     """suspects: [(cls, params)].  Returns the first (cls, params, seed, distance, detail) beyond the threshold."""
-    cases = [{"cls": c, "params": ps, "seed": seed + 17 * j, "n": 20000} for j, (c, ps) in enumerate(suspects)]
+    cases = [{"cls": c, "params": ps, "seed": seed + 17 * j, "n": 20000, "far": far_of({"cls": c, "params": ps})}
+             for j, (c, ps) in enumerate(suspects)]
     res = run_parallel(IMPL15, "stats", cases, workers=min(8, max(1, len(cases))))
     worst = None
     for cs, r in zip(cases, res):
@@ -467,7 +498,7 @@ def main(tier: str) -> int:
     try:
         dres = run_parallel(IMPL14, "dens", [{"cls": c["cls"], "params": c["params"], "calls": c["calls"]} for c in dcases])
         num_cases = [c for c in dcases if c.get("grid")] + [c for c in dcases if not c.get("grid")][:(40 if not thorough else 400)]
-        nres = run_parallel(IMPL15, "num", [{"cls": c["cls"], "params": c["params"]} for c in num_cases])
+        nres = run_parallel(IMPL15, "num", [{"cls": c["cls"], "params": c["params"], "far": far_of(c)} for c in num_cases])
     except Exception as exc:  # noqa
         run.violation("harness-cannot-run-implementation",
                       f"running the calls on the implementation failed: {type(exc).__name__}: {str(exc)[-1500:]}", {}, found_input=False)
